@@ -79,6 +79,7 @@ type report struct {
 	ISS    uint32                 `json:"iss,omitempty"`
 	State  string                 `json:"state,omitempty"`
 	GapMs  int                    `json:"gap_ms,omitempty"`
+	Excess int                    `json:"excess_ms,omitempty"`
 }
 
 type BatchPanic struct {
@@ -244,8 +245,7 @@ func childMain() int {
 				continue
 			}
 			// a single frame (the probe) is always attempted, also after a stall
-			if err := writeFrame(k.peers[payload[0]], payload[1:]); err == errStall {
-				atomic.StoreInt32(&k.stalled, 1)
+			if err := k.writeFrame(k.peers[payload[0]], payload[1:]); err == errStall {
 				w.send(report{T: "stall", ID: id})
 			} else if err != nil {
 				w.send(report{T: "err", ID: id, Err: "write to socketpair: " + err.Error()})
@@ -262,9 +262,8 @@ func childMain() int {
 				if 2+l > len(p) {
 					break
 				}
-				if err := writeFrame(fd, p[2:2+l]); err == errStall {
+				if err := k.writeFrame(fd, p[2:2+l]); err == errStall {
 					// the loop has stopped reading: the rest of the history cannot be delivered
-					atomic.StoreInt32(&k.stalled, 1)
 					w.send(report{T: "stall", ID: id})
 					break
 				} else if err != nil {
@@ -396,6 +395,17 @@ func childMain() int {
 				}
 			}
 			w.send(r)
+		case 'r': // light barrier: the receive loop has taken every frame written so far (it may still be handling the last)
+			r := report{T: "drained", ID: id}
+			deadline := time.Now().Add(10 * time.Second)
+			for pending(k.peers) != 0 {
+				if time.Now().After(deadline) {
+					r.Err = "the receive loop did not take the frames written to its socket within 10s"
+					break
+				}
+				time.Sleep(50 * time.Microsecond)
+			}
+			w.send(r)
 		case 'I': // connection state: src ip(4) sport(2) dst ip(4) dport(2)
 			r := report{T: "conn", ID: id}
 			if len(payload) == 12 {
@@ -496,23 +506,38 @@ func quiet(dump []byte, loops bool) bool {
 	return true
 }
 
-// writeFrame writes one frame to the peer end of a socketpair. The descriptor has a send
-// timeout of stallAfter (newChildCanary): when the queue stays full for that long - the
-// receive loop takes nothing - the write gives up with errStall instead of blocking the
-// child's command loop (and, behind it, the parent) for ever.
-func writeFrame(fd int, frame []byte) error {
+// writeFrame writes one frame to the peer end of k's socketpair without ever blocking in
+// the kernel: while the socket's queue (a few hundred frames) is full it polls, and when
+// the queue has stayed full for stallAfter - the receive loop has taken nothing for that
+// long - it gives up with errStall instead of blocking the child's command loop (and,
+// behind it, the parent) for ever. After a stall the next writes wait a quarter of that.
+func (k *childCanary) writeFrame(fd int, frame []byte) error {
+	limit := stallAfter
+	if atomic.LoadInt32(&k.stalled) != 0 {
+		limit = stallAfter / 4
+	}
+	var start time.Time
+	backoff := 20 * time.Microsecond
 	for {
-		_, err := syscall.Write(fd, frame)
-		if err == syscall.EINTR {
-			continue
+		err := syscall.Sendto(fd, frame, syscall.MSG_DONTWAIT, nil)
+		switch err {
+		case nil:
+			return nil
+		case syscall.EINTR:
+		case syscall.EAGAIN:
+			if start.IsZero() {
+				start = time.Now()
+			} else if time.Since(start) > limit {
+				atomic.StoreInt32(&k.stalled, 1)
+				return errStall
+			}
+			time.Sleep(backoff)
+			if backoff < time.Millisecond {
+				backoff *= 2
+			}
+		default:
+			return err
 		}
-		if err == syscall.EAGAIN {
-			// whoever writes next (the probe) need not wait that long again
-			tv := syscall.NsecToTimeval(int64(stallAfter / 4))
-			syscall.SetsockoptTimeval(fd, syscall.SOL_SOCKET, syscall.SO_SNDTIMEO, &tv)
-			return errStall
-		}
-		return err
 	}
 }
 
@@ -520,7 +545,17 @@ func writeFrame(fd int, frame []byte) error {
 // time) and reports the largest gap between two consecutive writes as it really was.
 func paced(k *childCanary, id uint32, fd int, p []byte, w *repWriter) {
 	r := report{T: "paced", ID: id}
-	var last time.Time
+	var first, last time.Time
+	var planned time.Duration
+	defer func() {
+		// how much longer the whole burst took than its delays add up to
+		if r.N > 1 {
+			if x := int((last.Sub(first) - planned) / time.Millisecond); x > 0 {
+				r.Excess = x
+			}
+		}
+		w.send(r)
+	}()
 	for len(p) >= 6 {
 		delay := time.Duration(binary.BigEndian.Uint32(p[0:4])) * time.Millisecond
 		l := int(binary.BigEndian.Uint16(p[4:6]))
@@ -530,10 +565,9 @@ func paced(k *childCanary, id uint32, fd int, p []byte, w *repWriter) {
 		if delay > 0 {
 			time.Sleep(delay)
 		}
-		err := writeFrame(fd, p[6:6+l])
+		err := k.writeFrame(fd, p[6:6+l])
 		now := time.Now()
 		if err == errStall {
-			atomic.StoreInt32(&k.stalled, 1)
 			r.Err = "stalled"
 			break
 		} else if err != nil {
@@ -544,12 +578,14 @@ func paced(k *childCanary, id uint32, fd int, p []byte, w *repWriter) {
 			if g := int(now.Sub(last) / time.Millisecond); g > r.GapMs {
 				r.GapMs = g
 			}
+			planned += delay
+		} else {
+			first = now
 		}
 		last = now
 		r.N++
 		p = p[6+l:]
 	}
-	w.send(r)
 }
 
 func newChildCanary(id uint32, cfg Config, w *repWriter) (*childCanary, error) {
@@ -577,12 +613,7 @@ func newChildCanary(id uint32, cfg Config, w *repWriter) (*childCanary, error) {
 	}
 	k := &childCanary{c: c}
 	for _, name := range cfg.Interfaces {
-		fd := c.VerifPeer(name)
-		k.peers = append(k.peers, fd)
-		tv := syscall.NsecToTimeval(int64(stallAfter))
-		if err := syscall.SetsockoptTimeval(fd, syscall.SOL_SOCKET, syscall.SO_SNDTIMEO, &tv); err != nil {
-			return nil, fmt.Errorf("SO_SNDTIMEO on the socketpair: %v", err)
-		}
+		k.peers = append(k.peers, c.VerifPeer(name))
 	}
 	if cfg.Start {
 		// never cancelled: cancelling closes the epoll descriptor under the loop, which
@@ -920,6 +951,7 @@ type Canary struct {
 type Paced struct {
 	Sent     int    // frames written
 	MaxGapMs int    // largest real gap between two consecutive writes
+	ExcessMs int    // real duration from the first to the last write minus the requested delays
 	Err      string // "stalled": the receive loop stopped taking frames
 }
 
@@ -932,7 +964,7 @@ func (k *Canary) stall() {
 
 func (k *Canary) pacedDone(r report) {
 	k.mu.Lock()
-	k.paced = append(k.paced, Paced{Sent: r.N, MaxGapMs: r.GapMs, Err: r.Err})
+	k.paced = append(k.paced, Paced{Sent: r.N, MaxGapMs: r.GapMs, ExcessMs: r.Excess, Err: r.Err})
 	if r.Err == "stalled" {
 		k.stalls++
 	}
@@ -1203,6 +1235,21 @@ func (k *Canary) InjectBurst(frames [][]byte) (tx [][]byte, panics []BatchPanic,
 // loop has taken every frame written so far and it and all handler goroutines are parked.
 func (k *Canary) Rest() error {
 	r, err := k.ch.call('q', k.id, nil, "rest")
+	if err != nil {
+		return err
+	}
+	if r.Err != "" {
+		return fmt.Errorf("child: %s", r.Err)
+	}
+	return nil
+}
+
+// Drained is a light barrier for a canary behind the real Start() loop: it returns when the
+// loop has taken every frame written so far from its socket (it may still be handling
+// the last one; handler goroutines are not waited for). Unlike Rest its cost does not
+// grow with the number of parked handler goroutines.
+func (k *Canary) Drained() error {
+	r, err := k.ch.call('r', k.id, nil, "drained")
 	if err != nil {
 		return err
 	}
